@@ -24,18 +24,19 @@ const (
 
 // exec is the state of one invocation (thread).
 type exec struct {
-	prog    *Program
-	steps   int64 // remaining budget (shared through *sh when running a workgroup)
-	sh      *shared
-	fr      *frame
-	gmem    *Mem
-	wg      *Mem
-	ph      []Value
-	depth   int
-	retv    Value
-	poison  bool
-	inv     *invocation
-	scratch [1]cell
+	prog        *Program
+	steps       int64 // remaining budget (shared through *sh when running a workgroup)
+	sh          *shared
+	fr          *frame
+	gmem        *Mem
+	wg          *Mem
+	ph          []Value
+	depth       int
+	retv        Value
+	poison      bool
+	strictShift bool
+	inv         *invocation
+	scratch     [1]cell
 }
 
 type shared struct {
@@ -86,9 +87,9 @@ func chk(c cell, line int) uint32 {
 	return uint32(c)
 }
 
-func f32(c uint32) float32    { return math.Float32frombits(c) }
-func fbits(f float32) uint32  { return math.Float32bits(f) }
-func fcell(f float32) cell    { return cell(math.Float32bits(f)) }
+func f32(c uint32) float32   { return math.Float32frombits(c) }
+func fbits(f float32) uint32 { return math.Float32bits(f) }
+func fcell(f float32) cell   { return cell(math.Float32bits(f)) }
 func boolCell(b bool) cell {
 	if b {
 		return 1
@@ -349,7 +350,9 @@ func (x *exec) eval(e *Expr) Value {
 	x.step(e.line)
 	switch e.op {
 	case xLit:
-		return e.val
+		var v Value
+		v.a[0] = e.lit
+		return v
 	case xLocal:
 		n := e.t.Cells
 		if n == 1 {
@@ -759,7 +762,7 @@ func (x *exec) evalBinary(e *Expr) Value {
 	if e.bop == bShl || e.bop == bShr {
 		ck := e.b.t.scalarOf().Kind
 		for i := 0; i < n; i++ {
-			r.a[i] = cell(shiftOp(e.bop, k, chk(a.a[i], e.line), ck, chk(b.a[i], e.line), e.line))
+			r.a[i] = cell(shiftOp(e.bop, k, chk(a.a[i], e.line), ck, chk(b.a[i], e.line), e.line, x.strictShift))
 		}
 		return r
 	}
@@ -769,9 +772,16 @@ func (x *exec) evalBinary(e *Expr) Value {
 	return r
 }
 
-func shiftOp(op binOp, k Kind, v uint32, ck Kind, cnt uint32, line int) uint32 {
+// shiftOp implements << and >>. The MSL specification (Scalar and Vector Operators) defines both
+// for every count: E1 is shifted by the log2(N) least significant bits of E2 viewed as unsigned, N the
+// bit width of (promoted) E1; >> fills with the sign bit for signed E1. With strict (Opts.
+// StrictShifts) the C++14 rule is applied instead: a negative count or one >= N is undefined.
+func shiftOp(op binOp, k Kind, v uint32, ck Kind, cnt uint32, line int, strict bool) uint32 {
 	if (ck == KInt && int32(cnt) < 0) || cnt >= 32 {
-		trap("shift-range", "line %d: shift count %d out of range", line, int64(int32(cnt)))
+		if strict {
+			trap("shift-range", "line %d: shift count %d out of range", line, int64(int32(cnt)))
+		}
+		cnt &= 31
 	}
 	if op == bShl {
 		return v << cnt
